@@ -9,11 +9,13 @@ use crate::coqfmt as cf;
 use crate::rng::Rng;
 use crate::{CaseSet, Stats, Tier};
 
-pub const KINDS: [&str; 13] = [
+pub const KINDS: [&str; 15] = [
     "honest", "wrong-leaf", "wrong-index-in-width", "alias-index-beyond-width",
     "proof-element-corrupted", "proof-truncated", "proof-extended", "root-mutated",
     "padded-position", "inner-node-as-leaf", "random-proof-of-length", "honest-last-explicit-empties",
     "last-proof-of-canonical-empty-roots",
+    "maximal-last-proof-of-synthetic-root",
+    "maximal-last-proof-lengthened",
 ];
 
 struct Query {
@@ -50,7 +52,11 @@ fn run_query(q: &mut Query, tree_root: &Hash) {
     q.last = r2.unwrap_or(false);
 }
 
-fn leaf_count(rng: &mut Rng, tier: Tier, i: usize) -> usize {
+fn leaf_count(rng: &mut Rng, tier: Tier, i: usize, ncases: usize) -> usize {
+    // one LARGE tree per run (two in the thorough tier): more than 2^15 leaves (more than 2^16 nodes), far beyond the
+    // trees the protocol builds - internal offsets and level tables must not be narrower than the leaf count allows
+    if i + 1 == ncases { return 32_769; }
+    if i + 2 == ncases && matches!(tier, Tier::Thorough) { return 65_537; }
     let small: [usize; 24] = [1, 2, 3, 4, 5, 6, 7, 8, 9, 11, 12, 13, 15, 16, 17, 23, 31, 32, 33, 40, 63, 64, 65, 100];
     if i < small.len() {
         return small[i];
@@ -73,11 +79,11 @@ pub fn generate(seed: u64, tier: Tier) -> CaseSet {
     let mut sigs = Vec::new();
     let mut stats = Stats::default();
     let mut seen: HashSet<String> = HashSet::new();
-    let mut kind_count = [0u64; 13];
+    let mut kind_count = [0u64; 15];
     let mut verdict_count = [0u64; 4];
     let mut sizes: Vec<usize> = Vec::new();
     for cid in 0..ncases {
-        let n = leaf_count(&mut rng, tier, cid);
+        let n = leaf_count(&mut rng, tier, cid, ncases);
         sizes.push(n);
         // leaves: short random data; some explicitly empty (also trailing), some exactly 32 bytes
         let mut leaves: Vec<Vec<u8>> = (0..n)
@@ -86,6 +92,10 @@ pub fn generate(seed: u64, tier: Tier) -> CaseSet {
                 if r == 0 { vec![] } else if r == 1 { rng.bytes(32) } else { let l = rng.range(1, 40) as usize; rng.bytes(l) }
             })
             .collect();
+        if n > 4096 {
+            // large trees: distinct 3-byte leaves (cheap to hash and to print)
+            for (k, l) in leaves.iter_mut().enumerate() { *l = vec![k as u8, (k >> 8) as u8, (k >> 16) as u8]; }
+        }
         if rng.chance(1, 5) {
             // trailing explicit empties: the "last" leaf is then not the final index
             let k = rng.range(1, 3.min(n as u64)) as usize;
@@ -184,6 +194,21 @@ pub fn generate(seed: u64, tier: Tier) -> CaseSet {
                 }
             }
         }
+        // the MAXIMAL-height last-leaf proof (32 canonical empty roots) of a synthetic root: verifies as it is (kind 13),
+        // must fail once lengthened by further entries, canonical or arbitrary (kind 14)
+        if cid < 6 {
+            let empties: Vec<Vec<u8>> = alpenglow::crypto::merkle::verif_hooks::empty_roots().iter().map(|r| h2v(r)).collect();
+            for idx in [0u64, 1] {
+                let pf: Vec<Vec<u8>> = empties.clone();
+                let r = PlainMerkleTree::derive_root(&leaves[0], idx as usize, &pf.iter().map(|x| v2h(x)).collect::<Vec<_>>());
+                queries.push(Query { kind: 13, leaf: leaves[0].clone(), idx, root: Some(h2v(&r)), proof: pf.clone(), chk: false, last: false, panicked: false });
+                for extra in [1usize, 2, 8] {
+                    let mut p2 = pf.clone();
+                    for _ in 0..extra { p2.push(if rng.chance(1, 2) { empties[empties.len() - 1].clone() } else { rng.bytes(32) }); }
+                    queries.push(Query { kind: 14, leaf: leaves[0].clone(), idx, root: Some(h2v(&r)), proof: p2, chk: false, last: false, panicked: false });
+                }
+            }
+        }
         let mut qtxt = Vec::new();
         for (qi, q) in queries.iter_mut().enumerate() {
             run_query(q, &root);
@@ -215,7 +240,7 @@ pub fn generate(seed: u64, tier: Tier) -> CaseSet {
         descr.push(format!("case {}: tree with {} leaves (height {}), {} created proofs, {} queries", cid, n, ht, idxs.len(), queries.len()));
         cases.push(case);
     }
-    stats.rule = "trees with structured leaf counts (1..=100, around powers of two; thorough: up to 1025) x queries (honest proof for every/sampled index + mutations: wrong leaf, wrong index, alias index i+k*2^h beyond the width, corrupted/truncated/extended proof, mutated root, padded position, inner node offered as leaf, proof-length sweep 0..=33, last-leaf proofs built from the canonical empty-subtree roots with lengths around the maximal tree height); a query is non-trivial when the tree has >= 2 leaves and the proof is non-empty; distinct by full content".to_string();
+    stats.rule = "trees with structured leaf counts (1..=100, around powers of two; thorough: up to 1025) x queries (honest proof for every/sampled index + mutations: wrong leaf, wrong index, alias index i+k*2^h beyond the width, corrupted/truncated/extended proof, mutated root, padded position, inner node offered as leaf, proof-length sweep 0..=33, last-leaf proofs built from the canonical empty-subtree roots with lengths around the maximal tree height, the maximal-height last-leaf proof of a synthetic root as it is and lengthened; one tree of 32769 leaves per run - thorough: also 65537); a query is non-trivial when the tree has >= 2 leaves and the proof is non-empty; distinct by full content".to_string();
     stats.distribution.push(("query_kinds".into(), KINDS.iter().zip(kind_count.iter()).map(|(k, c)| format!("{}={}", k, c)).collect::<Vec<_>>().join(", ")));
     stats.distribution.push(("impl_verdicts(check,last)".into(), format!("FF={} FT={} TF={} TT={}", verdict_count[0], verdict_count[1], verdict_count[2], verdict_count[3])));
     sizes.sort();
